@@ -11,6 +11,7 @@ print(' '.join(sorted(cb)))
 print(' '.join(sorted(set(r for v in cb.values() for r in v))))
 EOF
   props=$(sed -n 1p /tmp/seedcheck_all.$$); rules=$(sed -n 2p /tmp/seedcheck_all.$$)
+  if [ -z "$props" ]; then echo "$n: skipped (obsolete)"; continue; fi
   out=$(bin/seedcheck_scratch.sh $d/patch.diff $props 2>&1)
   miss=""
   for r in $rules; do echo "$out" | grep -q "^$r:" || miss="$miss $r"; done
